@@ -111,6 +111,16 @@ pub fn run_ska_env(ctx: &Ctx, cwd: &Path, args: &[&str], env: &[(&str, &str)]) -
             }
         }
     }
+    // likewise every eighth `ska weed <skf> <weed file>`: the sequences to weed arrive through a pipe
+    if sub == "weed" && piped_list.is_none() && (ctx.counter.get() as usize + salt) % 8 == 3 && args.len() >= 3 && !args[2].starts_with('-') {
+        let wp = if Path::new(args[2]).is_absolute() { Path::new(args[2]).to_path_buf() } else { cwd.join(args[2]) };
+        if wp.is_file() {
+            if let Ok(d) = std::fs::read(&wp) {
+                piped_list = Some(d);
+                args_owned[2] = "/dev/stdin".to_string();
+            }
+        }
+    }
     let args: Vec<&str> = args_owned.iter().map(|a| a.as_str()).collect();
     let mut rewritten: Vec<String> = Vec::with_capacity(args.len());
     let mut i = 0;
